@@ -94,16 +94,14 @@ def samples():
     out = []
     A = np.array([[0, 1, 0, 0], [0, 0, 1, 0], [0, 0, 0, 0], [0, 1, 0, 0]])
     out.append({"function": F + "add_edges", "inputs": {"A": C.jsonable(A), "no_edges": 3, "random_state": 0},
-                "library": U.add_edges(A, 3, 0).tolist(), "oracle": "acyclic 0/1 supergraph with 3+3 edges; max addable 3"})
-    st, r = C.call(U.add_edges, A, 4, 0)
+                "library": C.lib(U.add_edges, A, 3, 0, render=lambda r: r.tolist()), "oracle": "acyclic 0/1 supergraph with 3+3 edges; max addable 3"})
     out.append({"function": F + "add_edges", "inputs": {"A": C.jsonable(A), "no_edges": 4, "random_state": 0},
-                "library": type(r).__name__, "oracle": "ValueError (4 > 6 - 3)"})
+                "library": C.lib(U.add_edges, A, 4, 0, render=lambda r: r.tolist()), "oracle": "ValueError (4 > 6 - 3)"})
     W = np.array([[0, -1.5, 0.5], [0, 0, 2.], [0, 0, 0]])
     out.append({"function": F + "remove_edges", "inputs": {"A": C.jsonable(W), "no_edges": 2, "random_state": 1},
-                "library": U.remove_edges(W, 2, 1).tolist(), "oracle": "0/1 subgraph of the pattern with 3-2 edges"})
-    st, r = C.call(U.remove_edges, W, 4, 1)
+                "library": C.lib(U.remove_edges, W, 2, 1, render=lambda r: r.tolist()), "oracle": "0/1 subgraph of the pattern with 3-2 edges"})
     out.append({"function": F + "remove_edges", "inputs": {"A": C.jsonable(W), "no_edges": 4, "random_state": 1},
-                "library": type(r).__name__, "oracle": "ValueError (4 > 3)"})
+                "library": C.lib(U.remove_edges, W, 4, 1, render=lambda r: r.tolist()), "oracle": "ValueError (4 > 3)"})
     return out
 
 
@@ -123,7 +121,7 @@ def run(tier, seed):
             "Feasible: 0/1 sub-/supergraph of the pattern with exactly k fewer/more edges, add_edges result acyclic by the oracle's own "
             "detector, no self-loop or 2-cycle; infeasible: ValueError and nothing else; input unchanged. non-trivial = DAG with >=1 edge; "
             "distinct = exact integer key (kind, p, matrix bits) in a set" % (pmax, nseeds - 1))
-    return C.report(tally, rule, exhaustive=True, bound="p<=%d, seeds 0..%d" % (pmax, nseeds - 1), samples=samples())
+    return C.report(tally, rule, exhaustive=True, bound="p<=%d, seeds 0..%d" % (pmax, nseeds - 1), samples=C.safe_samples(samples))
 
 
 if __name__ == "__main__":
